@@ -12,6 +12,10 @@ CHECKS = {
     text="Differential symbolic execution of the library codec against ref/wabinary.py (independent encoder with explicit choice vector + decoder, frozen dictionary copy): every dictionary index both ways; ref_decode(lib_encode(t)) == t on the C01 families; lib_decode(ref_encode(t, choices)) == t for list16 / 20- and 31-bit length / literal / unpacked / no-JID / string-valued content choices; deflate checked with real zlib on every path witness.",
     note="Trusted: the reference implementation and its frozen dictionary copy (extracted once from the pinned commit; no network), engine models, z3. zlib is not encoded (concrete on witnesses).",
     technique="differential symbolic execution (library vs independent reference) with z3, concrete replay of every model"),
+ "C07": dict(cat="model_checking", design="4/C07",
+    text="One incoming stanza with solver-variable fields (id, from, participant, notify, t as unconstrained strings/integers; notification type unconstrained or each documented kind with its documented body; call kinds; ping id; concrete protobuf payloads of every unsupported kind, unknown mediatype as unconstrained string) is injected below the really assembled layer set (3 encryption layers with an ideal manager stub + all protocol layers of the selected modules). z3 decides on every path: exactly one ack/receipt/pong with equal id, class, type, to and participant.",
+    note="Trusted: engine string model, manager stub (only reached by encrypt notifications). One stanza per run; module selections all/none/single-off (quick), all 16 with and without encryption layers (thorough).",
+    technique="symbolic execution of the assembled protocol layers with z3 string variables; concrete replay of every model"),
  "C09": dict(cat="model_checking", design="4/C09",
     text="For every entity class with a documented stanza (57 repository fixtures + hand-written templates for ~45 classes without fixture) the documented stanza becomes a template whose non-discriminator attributes are unconstrained z3 strings / integers (list children 0..3, optional attributes dropped); symbolic execution of fromProtocolTreeNode + toProtocolTreeNode must reproduce the template for all values (classes built from incoming stanzas), and stanzas of sendable classes (built through the constructor with symbolic arguments) must satisfy the codec's typing contract; every path witness also goes through the real encoder/decoder.",
     note="Trusted: template catalogue (documented shapes, discriminators kept concrete, repeated fields tied, sibling jids distinct), engine string model (z3 Strings), z3. The protobuf payload of message stanzas is opaque here (C10).",
